@@ -1,5 +1,6 @@
 import AslProofs.HttpFrame
 import AslProofs.HttpTarget
+import AslProofs.HttpQueryFrame
 import AslProps.C10Spec
 /-!
 # C10 — HTTP client and server exchange exact methods, headers, status and bodies
@@ -1175,5 +1176,40 @@ example : ({ exampleRaw with target := targetText (AslModel.Codec.urlEncode [47,
   · unfold WFWord; decide
   · unfold WFHeaders WFName WFValue FitsLine; decide
   · exact reads_of_rfc_chunked _ _ _ exampleChunked (by decide) (by decide) (by decide)
+
+/-! ## query values: the dictionary `Url::parseQuery` makes of the query string (printed on every `H` line) -/
+
+/-- **query_values_are_c15.**  On every query string without NUL whose decoded keys hold no NUL the C10 transcription
+of `Url::parseQuery` yields the dictionary of C15's (whose `query_roundtrip` is proved for all dictionaries). -/
+theorem query_values_are_c15 (qs : Bytes) (h0 : (0 : UInt8) ∉ qs)
+    (hkeys : ∀ kv ∈ AslModel.Query.splitDic 38 61 (qs.map fun c => if c = 43 then 32 else c),
+      (0 : UInt8) ∉ AslModel.Codec.urlDecode kv.1) :
+    parseQuery qs = AslModel.Query.parseQuery qs := AslProofs.HttpQueryFrame.parseQuery_eq_c15 qs h0 hkeys
+
+/-- **query_values_observed.**  For every dictionary `d` (sorted as a `Dic`, keys not empty and without NUL, values any
+bytes: `&`, `=`, `+`, `%`, `#`, blanks, NUL) the query string `Url::params(d)` is parsed back to exactly `d`. -/
+theorem query_values_observed (d : AslModel.Query.Dict) (hs : AslProofs.Query.Sorted d) (hk : ∀ kv ∈ d, kv.1 ≠ [])
+    (hz : ∀ kv ∈ d, (0 : UInt8) ∉ kv.1) : parseQuery (AslModel.Query.params d) = d :=
+  AslProofs.HttpQueryFrame.parseQuery_params d hs hk hz
+
+/-- **handler_sees_sent_query.**  On the connection: a well-formed request (any sender, framing, fragmentation) whose
+target is `Url::encode(p)`, `?`, `Url::params(d)` and an optional fragment reaches the handler with `path() = p` and a
+query string that parses to exactly `d`. -/
+theorem handler_sees_sent_query (x : Wire) (h : x.WF) (rest : Bytes) (i : Inp) (hi : Live i) (hd : i.data = x.bytes ++ rest)
+    (p : Bytes) (comp : Bool) (f : Option Bytes) (hp : p ≠ []) (h0 : 0 ∉ p)
+    (hdd : rmDotDot p = p) (hc : comp = false → 35 ∉ p ∧ 63 ∉ p)
+    (d : AslModel.Query.Dict) (hs : AslProofs.Query.Sorted d) (hk : ∀ kv ∈ d, kv.1 ≠ []) (hz : ∀ kv ∈ d, (0 : UInt8) ∉ kv.1)
+    (ht : x.target = targetText (AslModel.Codec.urlEncode p comp) (some (AslModel.Query.params d)) f) :
+    (readRequest i).1.path = p ∧ parseQuery (readRequest i).1.querystring = d := by
+  obtain ⟨h1, h2, _⟩ := handler_sees_sent_target x h rest i hi hd p comp (some (AslModel.Query.params d)) f hp h0 hdd hc
+    (fun q' e => by cases e; exact AslProofs.HttpQueryFrame.params_no_hash d hs hk) ht
+  exact ⟨h1, by rw [h2]; exact query_values_observed d hs hk hz⟩
+
+/-- `{"a b": "1&2=#"}`: sorted, key not empty, no NUL -/
+example : AslProofs.Query.Sorted [([97, 32, 98], [49, 38, 50, 61, 35])] ∧
+    (∀ kv ∈ ([([97, 32, 98], [49, 38, 50, 61, 35])] : AslModel.Query.Dict), kv.1 ≠ [] ∧ (0 : UInt8) ∉ kv.1) :=
+  ⟨List.pairwise_singleton _ _, by decide⟩
+example : parseQuery [97, 37, 50, 48, 98, 61, 49, 37, 50, 54, 50, 38, 120, 61, 43] =
+    [([97, 32, 98], [49, 38, 50]), ([120], [32])] := by decide
 
 end C10
